@@ -1359,6 +1359,9 @@ pub fn run_any(c: &IterAny) -> CaseReport {
 }
 
 fn replay(v: &Value) -> CaseReport {
+    if v.get("close_with_full_pipe").is_some() {
+        return crate::adapters::close_with_full_pipe_probe();
+    }
     if let Ok(c) = serde_json::from_value::<IterAny>(v.clone()) {
         return run_any(&c);
     }
@@ -1409,6 +1412,17 @@ pub static C10: PropDef = PropDef {
     extra: None,
 };
 
+fn c11_extra(def: &PropDef, _args: &WorkerArgs, report: &mut WorkerReport) {
+    let known = Known::load();
+    let rep = crate::adapters::close_with_full_pipe_probe();
+    if rep.inconclusive.is_some() {
+        return;
+    }
+    if let Some(v) = report.absorb(def, &rep, &known) {
+        report.violation = Some((v.key, v.msg, json!({"close_with_full_pipe": true})));
+    }
+}
+
 pub static C11: PropDef = PropDef {
     id: "C11",
     prefixes: &["C11/"],
@@ -1418,5 +1432,5 @@ pub static C11: PropDef = PropDef {
     shrink_iters: 600,
     worker: w11,
     replay,
-    extra: None,
+    extra: Some(c11_extra),
 };
